@@ -28,8 +28,11 @@ pub struct Prepared {
     pub knobs: Vec<(&'static str, u64)>,
     /// the main task of an execution; it fills the slot
     pub body: Arc<dyn Fn(&Slot) + Send + Sync>,
-    /// faults the workload itself injects (reader perturbations ...): name -> fired counter source
     pub record_events: bool,
+    /// the workload injects a hard (non-benign) fault: the operation may then fail in any way
+    /// (error, panic, even a stall); the only thing that must not happen is a success that
+    /// returns wrong data
+    pub hard_fault: bool,
 }
 
 pub trait TCheck: Sync {
@@ -98,6 +101,7 @@ pub struct OneRun {
     pub choice_points: u64,
     pub switches: u64,
     pub history_complaints: Vec<String>,
+    pub hard_fault: bool,
 }
 
 impl OneRun {
@@ -114,6 +118,7 @@ impl OneRun {
                 }
             }
             Outcome::Diverged(_) => None,
+            _ if self.hard_fault => None,
             o => Some(o.class()),
         }
     }
@@ -147,6 +152,7 @@ pub fn run_once(check: &dyn TCheck, hooks: &THooks, prep: &Prepared, plan: Plan)
         choice_points: rep.sched.choice_points,
         switches: rep.sched.switches,
         history_complaints,
+        hard_fault: prep.hard_fault,
     }
 }
 
@@ -195,6 +201,10 @@ pub fn worker_main(check: &dyn TCheck, args: &Args, w: usize, n: usize) -> ! {
             proc::flush_stdout();
             let run = run_once(check, &hooks, &prep, Plan::Explore { seed: sched_seed, strategy });
             let class = run.class();
+            let mut run = run;
+            if prep.hard_fault && !matches!(run.outcome, Outcome::Completed) {
+                run.report.notes.insert(format!("hard_fault_ended_{}", run.outcome.class().split(':').next().unwrap_or("?")), 1);
+            }
             let mut rec = json!({
                 "t":"run","work":work,"s":s,"strategy":strategy.name(),"steps":run.steps,
                 "choice_points":run.choice_points,"switches":run.switches,
